@@ -71,6 +71,7 @@ type Exec struct {
 	pdoms     map[*ssa.Function]map[*ssa.BasicBlock]*ssa.BasicBlock
 	noMerge   bool
 	mergeAfter int
+	havocKeep  map[string]bool // write-restricted heap entries the call being havocked cannot change
 	cuts       map[ssa.Instruction]*spec.CutSpec
 	cutDone    map[*spec.CutSpec]bool
 	wholeFn    *loopInfo
@@ -695,6 +696,9 @@ func (x *Exec) run() {
 			if gi.Pkg == nil || x.fn.Pkg == nil || gi.Pkg != x.fn.Pkg.Pkg {
 				continue // only the invariants of the function's own package are assumed
 			}
+			if !x.fnMentionsGlobals(identsOf(gi.E)) {
+				continue // ... and only when the function reads one of the variables the invariant is about
+			}
 			genv := x.specEnv(s, nil)
 			genv.Pkg = gi.Pkg
 			genv.CalleeView = true
@@ -712,6 +716,47 @@ func (x *Exec) run() {
 	}
 	x.entryPC = append([]*smt.Term{}, s.pc...)
 	x.execBlock(s, x.fn.Blocks[0], nil)
+}
+
+// fnMentionsGlobals: does the function (or a function literal / inlined callee in it) use one of these package variables?
+func (x *Exec) fnMentionsGlobals(names []string) bool {
+	want := map[string]bool{}
+	for _, n := range names {
+		want[n] = true
+	}
+	seen := map[*ssa.Function]bool{}
+	var visit func(f *ssa.Function) bool
+	visit = func(f *ssa.Function) bool {
+		if f == nil || seen[f] {
+			return false
+		}
+		seen[f] = true
+		for _, b := range f.Blocks {
+			for _, in := range b.Instrs {
+				for _, op := range in.Operands(nil) {
+					if g, ok := (*op).(*ssa.Global); ok && want[g.Name()] {
+						return true
+					}
+				}
+				if c, ok := in.(*ssa.Call); ok {
+					if callee := staticFn(&c.Call); callee != nil {
+						if obj, _ := callee.Object().(*types.Func); obj != nil {
+							if cc, ok := x.E.Contracts[obj]; ok && cc.Inline && visit(callee) {
+								return true
+							}
+						}
+					}
+				}
+			}
+		}
+		for _, a := range f.AnonFuncs {
+			if visit(a) {
+				return true
+			}
+		}
+		return false
+	}
+	return visit(x.fn)
 }
 
 func (x *Exec) specEnv(s *State, results map[string]SVal) *SpecEnv {
@@ -1257,7 +1302,11 @@ func (x *Exec) havocLoop(s *State, li *loopInfo) {
 }
 
 func (x *Exec) havocAllHeap(s *State, tag string) {
+	keep := x.havocKeep
 	for h, srt := range x.E.HeapSorts {
+		if keep[h] {
+			continue
+		}
 		x.Heap(s, h)
 		s.heap[h] = smt.Fresh(h+"$"+tag, srt)
 		x.wrote[h] = true
